@@ -265,9 +265,11 @@ void gen_history(Rng &r, const Profile &pf, Plan &plan) {
             Step e; e.op = OP_PARAM_EDIT;
             int64_t g = static_cast<int64_t>(r.below(16));
             int64_t q = static_cast<int64_t>(r.below(16));
-            int64_t k = static_cast<int64_t>(r.below(3));
-            e.i = {g, q, k};
+            int64_t k = static_cast<int64_t>(r.below(4));
+            int64_t sel = static_cast<int64_t>(r.below(48));
+            e.i = {g, q, k, sel};
             e.s.push_back(gen_text(r, gen_desc_len(r, pf.max_desc)));
+            e.s.push_back("AL" + gen_name(r, 5) + tos(f));
             frames.push_back(e);
         }
         if (r.chance(1, 25)) { Step s3; s3.op = OP_SET_RATE; s3.i = {static_cast<int64_t>(r.below(2)), static_cast<int64_t>(RATES[r.below(8)])}; frames.push_back(s3); }
